@@ -15,7 +15,7 @@ def run(space_list, evaluate, seed, bits=24, setup=None, extra_cases=None):
             items.append((si, part))
     if extra_cases:
         for xi, (name, cases, joiner) in enumerate(extra_cases):
-            for ch in core.chunked(cases, 64):
+            for ch in core.chunked(cases, max(64, len(cases) // 5000)):
                 items.append((-1 - xi, ch))
     items = core.rotate(items, seed)
     chunks = core.chunked(items, core.NPROC * 12)
